@@ -316,7 +316,8 @@ def enumerate_asks(ctx: Ctx, s: sched.Sched, kind: str, n_queued: int) -> None:
             # the claimed trials stay RUNNING (a finished trial would turn the loser's compare-and-set into an exception);
             # the thorough tier alternates with the finishing variant
             fin = "complete" if (ctx.thorough() and li % 2) else "leave_running"
-            r = sched.run_pair(s, target, lambda: ar.consume(0, fin), lambda: ar.consume(1, fin), b_wait=0.08)
+            r = sched.run_pair(s, target, lambda: ar.consume(0, fin), lambda: ar.consume(1, fin),
+                               b_wait=10.0 if in_study_layer else 0.08)   # outside the storage layer A holds no lock: B is given time to finish
             ctx.count("schedules")
             if r["hit"]:
                 ctx.count("schedules_a_paused")
@@ -335,7 +336,12 @@ def enumerate_asks(ctx: Ctx, s: sched.Sched, kind: str, n_queued: int) -> None:
                 safe(ar.consume, j % 2)
             case = {"driver": "single_preemption", "backend": kind, "queued": n_queued, "paused_at": f"{target[0].co_qualname}:{target[1]}", "seed": ctx.seed}
             ctx.case(case, bool(r["b_inside_window"]))
-            judge(ctx, ar, {"driver": "single_preemption", "storage_calls_overlapped": not in_study_layer, "paused_in": "study" if in_study_layer else "storage"}, case, expect_drained=True)
+            # the two asks' storage calls overlap when A was paused inside the storage layer - or when B did NOT finish inside
+            # A's paused window (slow machine): A is resumed after 80 ms and then really runs beside B
+            overlapped = (not in_study_layer) or not r["b_inside_window"]
+            if in_study_layer and not r["b_inside_window"]:
+                ctx.count("schedules_b_still_running_when_a_resumed")
+            judge(ctx, ar, {"driver": "single_preemption", "storage_calls_overlapped": overlapped, "paused_in": "study" if in_study_layer else "storage"}, case, expect_drained=True)
         finally:
             ar.close()
 
